@@ -27,6 +27,7 @@ structure PState where
       cache-independent predicates are judged and the model's cache is not compared -/
   pressure : Bool := false
   cutNext : Option Nat := none   -- resource whose next exchange cannot be completed (both origin transfers are cut)
+  cutLeft : Nat := 0             -- upstream GETs the armed cut will still hit
 
 def nat (x : String) : Nat := x.toNat?.getD 0
 def int (x : String) : Int := x.toInt?.getD 0
@@ -236,7 +237,11 @@ def step (ps : PState) (fs : List String) (obs : String) : PState × String × S
             !(ps.served.any (fun x => x.1 = res && x.2.1 = ver && body = s!"v{ver}:0:{x.2.2}:ok")) then "bad:body-truncated-or-extended"
         else if upI = "" && (between obs "xc=" " ") ≠ "HIT" && st = 200 then "bad:miss-label-without-origin-contact"
         else "ok"
-      ({ ps with now := ps.now + 1, cutNext := if ps.cutNext = some res then none else ps.cutNext }, obs, v)
+      -- the cut stays armed at the origin until two upstream GETs for the resource have consumed it (an exchange answered
+      -- from the store consumes nothing)
+      let nUp := if upI = "" then 0 else (upI.splitOn " ; ").length
+      let left := if ps.cutNext = some res then ps.cutLeft - nUp else ps.cutLeft
+      ({ ps with now := ps.now + 1, cutLeft := left, cutNext := if ps.cutNext = some res && left = 0 then none else ps.cutNext }, obs, v)
     else
     match fs with
     | ["px", "req", id, method, rng, ifr, _cond, hs, q, body] =>
@@ -331,13 +336,14 @@ def step (ps : PState) (fs : List String) (obs : String) : PState × String × S
       else if log.isEmpty then ps.renewed else ps.renewed.filter (· ≠ (res, r.query))
     ({ ps with cache := cache', now := now, armed := armed', renewed := renewed' }, m, v1)
     | _ => (ps, "bad-op", "bad:bad-op")
+  | ["px", "setbudget", _pct] => ({ ps with pressure := true }, "budget-set", "ok")
   | ["px", "setpolicy", ig, fo, dflt] =>
     -- an accepted run-time change of the cache policy: the following exchanges are decided by the new values
     ({ ps with cfg := { ps.cfg with ignoreCC := ig = "1", forceDefault := fo = "1", defaultMaxAge := int dflt * 1000 } }, "policy-set", "ok")
   | ["px", "abort2", id, _k, _ch] =>
     -- BOTH transfers of the next exchange for this resource fail part-way: the client cannot be given the whole body.
     -- It must be able to tell: a cut connection (`bodyerr=`), or an error status - never a complete-looking short 200.
-    ({ ps with pressure := true, cutNext := some (nat id) }, "armed", "ok")
+    ({ ps with pressure := true, cutNext := some (nat id), cutLeft := 2 }, "armed", "ok")
   | ["px", "abort", _id, _k] =>
     -- the next origin transfer for the resource fails part-way (full Content-Length, a prefix of the body, EOF):
     -- whether the partial write reached the store is the cache's business; from here on the trace is judged with the
